@@ -17,4 +17,5 @@ json.dump({"breaks_property":prop,"needs_to_manifest":needs,
  "detected_by":caught},open(d+"/meta.json","w"),indent=1)
 PY
 git -C /repo worktree remove --force $wt
+/verif/bin/seedtable.py
 echo kept $d
